@@ -36,6 +36,17 @@ base = f(1)
 exprs.append((("simple", "getitem", (0,)), base[0]))
 exprs.append((("simple", "getitem", (1,)), base[1]))
 exprs.append((("simple", "add", (1,)), base + 1))
+# forward and reflected operators on the same lazy operand and constant denote different calls
+import operator as _op
+for nm, fn in (("sub", _op.sub), ("truediv", _op.truediv), ("add", _op.add), ("mul", _op.mul), ("and", _op.and_), ("or", _op.or_)):
+    exprs.append((("simple", nm, ("x", 10)), fn(base, 10)))
+    exprs.append((("simple", "r" + nm, (10, "x")), fn(10, base)))
+# enum-valued and export options survive serialisation unchanged
+from redun.task import CacheScope, CacheCheckValid
+exprs.append((("task-enum", "cache_scope"), f.options(cache_scope=CacheScope.CSE)(1)))
+exprs.append((("task-enum", "check_valid"), f.options(check_valid=CacheCheckValid.SHALLOW)(1)))
+exprs.append((("task-enum", "export"), f.export_options(cache_scope=CacheScope.NONE)(1)))
+exprs.append((("sched-enum", "cond"), cond.options(cache_scope=CacheScope.CSE)(True, 1, 2)))
 exprs.append((("value", 1), ValueExpression(1)))
 exprs.append((("value", 2), ValueExpression(2)))
 w = None
@@ -44,8 +55,9 @@ for (k1, e1), (k2, e2) in itertools.combinations(exprs, 2):
     n += 1
     # export_options(**kw) also sets the option, so compare the effective identity
     def ident(e):
-        return (type(e).__name__, getattr(e, "task_name", getattr(e, "func_name", None)), repr(e.args) if hasattr(e, "args") else repr(getattr(e, "value", None)),
-                repr(sorted(getattr(e, "_options", {}).items(), key=str)), repr(sorted(getattr(e, "_export_options", set()))))
+        d = e.__dict__     # expressions turn unknown attribute reads into lazy getattr expressions
+        return (type(e).__name__, d.get("task_name", d.get("func_name")), repr(d["args"]) if "args" in d else repr(d.get("value")), repr(sorted(d.get("kwargs", {}).items())),
+                repr(sorted(d.get("_options", {}).items(), key=str)), repr(sorted(d.get("_export_options", set()))))
     if e1.get_hash() == e2.get_hash() and ident(e1) != ident(e2):
         w = dict(check="equal hash for different calls", a=ident(e1), b=ident(e2))
         break
@@ -56,7 +68,8 @@ if w is None:
         if is_task:
             e.call_hash = "x" * 40
         e2 = pickle.loads(pickle.dumps(e))
-        if e2.get_hash() != e.get_hash() or (is_task and e2.call_hash is not None) or (is_task and (e2._options != e._options or e2._export_options != e._export_options)):
+        typed = lambda d: sorted((k, type(v).__name__, repr(v)) for k, v in d.items())
+        if e2.get_hash() != e.get_hash() or (is_task and e2.call_hash is not None) or (is_task and (typed(e2._options) != typed(e._options) or e2._export_options != e._export_options)):
             w = dict(check="pickle round trip preserves hash/options and clears call_hash", expression=repr(e), call_hash_after=repr(e2.__dict__.get("call_hash")))
             break
-finish(w is not None, witness=w, evaluations=n, bound="all pairs of 49 generated expressions (2 tasks x 3 argument lists x 3 option sets x 2 export sets; cond with 3 option sets; operators; values); pickle round trip of each")
+finish(w is not None, witness=w, evaluations=n, bound="all pairs of 65 generated expressions (forward and reflected forms of the 6 lazy binary operators, enum-valued options;  (2 tasks x 3 argument lists x 3 option sets x 2 export sets; cond with 3 option sets; operators; values); pickle round trip of each")
